@@ -290,25 +290,68 @@ func c10IsoBody(bg *[65536]uint8, e *Enc, results *[2]refz80.State, logs *[2]str
 
 // c10IsoBodyReq: as c10IsoBody, with a request of kind reqKind (see c10IsoReq) pending on both CPUs (-1: none).
 func c10IsoBodyReq(bg *[65536]uint8, e *Enc, results *[2]refz80.State, logs *[2]string, nsteps int, reqKind int) func(s *sched.Scheduler) {
+	return c10IsoBodyVar(bg, e, results, logs, nsteps, reqKind, 0)
+}
+
+// Variants of the two-CPU acceptance scenario:
+// 0 each CPU has its own request object;
+// 1 both CPUs are handed the *same* request object (one interrupt line wired to two CPUs): the object is
+//   input, whatever an implementation keeps in it must not connect the CPUs;
+// 2 CPU 1 is a by-value copy of CPU 0 (fork := *cpu, own memory and device) taken after CPU 0 has served a
+//   request of the same kind: whatever the first acceptance left in the CPU value is now in both.
+const c10IsoVariants = 3
+
+func c10IsoBodyVar(bg *[65536]uint8, e *Enc, results *[2]refz80.State, logs *[2]string, nsteps int, reqKind int, variant int) func(s *sched.Scheduler) {
 	return func(s *sched.Scheduler) {
+		var ws [2]*c10Machine
+		var shared *z80.Interrupt
 		for t := 0; t < 2; t++ {
-			t := t
 			w := newC10Machine(bg)
+			ws[t] = w
 			p := baseVector(t)
 			var cs Case
 			materialise(&p, e, &cs)
+			if variant == 2 && t == 1 {
+				*w.cpu = *ws[0].cpu
+				w.cpu.Memory, w.cpu.IO = w.mem, w.io
+			}
 			// same handler on both CPUs, different data
 			w.mem.Poke(cs.S.PC, cs.Bytes...)
 			for i := 1; i < nsteps; i++ {
 				w.mem.Poke(cs.S.PC+uint16(i*len(cs.Bytes)), cs.Bytes...)
 			}
 			*w.io = obs.IO{X: uint8(0x30 + t), Y: 0x35}
+			if variant == 2 && t == 0 && reqKind >= 0 {
+				// warm-up: CPU 0 serves one request of this kind, then everything visible is reset
+				toCPU(&cs.S, w.cpu)
+				w.cpu.IFF1, w.cpu.IFF2 = true, true
+				w.cpu.IM, w.cpu.Interrupt = c10IsoReq(reqKind, 1)
+				w.cpu.Step()
+				w.cpu.Interrupt = nil
+				w.cpu.HALT = false
+				w.mem.Reset()
+				w.io.Reset()
+				w.mem.Poke(cs.S.PC, cs.Bytes...)
+				for i := 1; i < nsteps; i++ {
+					w.mem.Poke(cs.S.PC+uint16(i*len(cs.Bytes)), cs.Bytes...)
+				}
+			}
 			toCPU(&cs.S, w.cpu)
 			if reqKind >= 0 {
 				w.cpu.IFF1, w.cpu.IFF2 = true, true
 				w.cpu.IM, w.cpu.Interrupt = c10IsoReq(reqKind, t)
+				if variant == 1 {
+					if t == 0 {
+						shared = w.cpu.Interrupt
+					}
+					w.cpu.Interrupt = shared
+				}
 				w.mem.Poke(uint16(w.cpu.IR.Hi)<<8|0x40, uint8(0x10+t), 0x20)
 			}
+		}
+		for t := 0; t < 2; t++ {
+			t := t
+			w := ws[t]
 			w.mem.Hook = func(bool, uint16) { s.Point("mem") }
 			w.io.Hook = func(bool, uint8) { s.Point("io") }
 			s.Go(fmt.Sprintf("cpu%d", t), func() {
@@ -369,7 +412,7 @@ func checkC10(c *Ctx) {
 	}
 	nEncProgs := len(progs)
 	progs = append(progs, c10StructuredProgs()...)
-	c.Rule = fmt.Sprintf("(a) %d programs: for every implemented encoding the program enc;enc;enc from 2 base states, plus %d structured programs (self-modifying code, LDIR over its own code, block instructions, loops, calls, prefix chains, IM switches, each also with NMI/IM1/IM2/IM0 requests at 3 boundaries); for each program of N Steps: a second fresh CPU from the same initial state, and for EVERY boundary k in 1..N-1 a fresh CPU value rebuilt from copies of States, HALT, the pending request, memory and device, must follow the original Step for Step (States, HALT, pending, memory digest after every Step); one CPU value reused across all programs must behave like a fresh one; all ordered pairs enc1;enc2 of implemented encodings (quick: every 4th as enc1) with a snapshot between the two instructions. (b) for every implemented encoding: 2 CPUs on their own memories execute it at the same time with different register/memory data, scheduling points inside every memory/port callback, ALL interleavings enumerated by the controlled scheduler (no preemption bound), plus 2-Step programs with a point between Steps at preemption bound 2; each CPU's final state and access trace must equal its solo run. Non-trivial: snapshots at k>=1 and schedules with at least one context switch (counted).", len(progs), len(progs)-nEncProgs)
+	c.Rule = fmt.Sprintf("(a) %d programs: for every implemented encoding the program enc;enc;enc from 2 base states, plus %d structured programs (self-modifying code, LDIR over its own code, block instructions, loops, calls, prefix chains, IM switches, each also with NMI/IM1/IM2/IM0 requests at 3 boundaries); for each program of N Steps: a second fresh CPU from the same initial state, and for EVERY boundary k in 1..N-1 a fresh CPU value rebuilt from copies of States, HALT, the pending request, memory and device, must follow the original Step for Step (States, HALT, pending, memory digest after every Step); one CPU value reused across all programs must behave like a fresh one; all ordered pairs enc1;enc2 of implemented encodings (quick: every 4th as enc1) with a snapshot between the two instructions. (b) for every implemented encoding: 2 CPUs on their own memories execute it at the same time with different register/memory data, scheduling points inside every memory/port callback, ALL interleavings enumerated by the controlled scheduler (no preemption bound), plus 2-Step programs with a point between Steps at preemption bound 2; each CPU's final state and access trace must equal its solo run; both CPUs accepting a request at the same time (7 request kinds) in 3 variants: own request objects, ONE request object handed to both CPUs, CPU 1 a by-value copy of CPU 0 made after CPU 0 served such a request; two CPUs without IO device. Non-trivial: snapshots at k>=1 and schedules with at least one context switch (counted).", len(progs), len(progs)-nEncProgs)
 	c.Bound = "every snapshot point; all interleavings of 2 single-Step CPUs; 2-Step programs at preemption bound 2 (thorough: 3)"
 	type pair struct{ a, b *c10Machine }
 	pairs := make([]*pair, 16)
@@ -546,13 +589,14 @@ func checkC10(c *Ctx) {
 	// both CPUs accept an interrupt at the same time (NMI, IM1, IM2, mode-0 RST / CALL / INC / LD with
 	// different request data), followed by the first instruction at the target: all interleavings
 	nop := buildEnc([]uint8{0x00})
-	for kind := 0; kind < c10IsoReqKinds; kind++ {
+	for kv := 0; kv < c10IsoReqKinds*c10IsoVariants; kv++ {
+		kind, variant := kv%c10IsoReqKinds, kv/c10IsoReqKinds
 		var solo, res [2]refz80.State
 		var sololog, logs [2]string
-		sched.Execute(nil, 4000, c10IsoBodyReq(bg, &nop, &solo, &sololog, 2, kind))
-		st := sched.Explore(-1, 4000, 400000, c10IsoBodyReq(bg, &nop, &res, &logs, 2, kind), func(x *sched.Scheduler) bool {
+		sched.Execute(nil, 4000, c10IsoBodyVar(bg, &nop, &solo, &sololog, 2, kind, variant))
+		st := sched.Explore(-1, 4000, 400000, c10IsoBodyVar(bg, &nop, &res, &logs, 2, kind, variant), func(x *sched.Scheduler) bool {
 			if pv, tr := x.Panic(); pv != nil {
-				c.Report(fmt.Sprintf("c10/isolation:request-kind-%d", kind), int64(kind), "", c10Iso{Enc: fmt.Sprintf("request kind %d", kind), Sched: x.Choices(), Salt: c.Salt}, []string{fmt.Sprintf("panic under schedule %v: %v", x.Choices(), pv), tr})
+				c.Report(fmt.Sprintf("c10/isolation:request-kind-%d", kv), int64(kv), "", c10Iso{Enc: fmt.Sprintf("request kind %d", kv), Sched: x.Choices(), Salt: c.Salt}, []string{fmt.Sprintf("panic under schedule %v (variant %d): %v", x.Choices(), variant, pv), tr})
 				return false
 			}
 			for _, s := range x.Steps {
@@ -563,8 +607,8 @@ func checkC10(c *Ctx) {
 			}
 			for t := 0; t < 2; t++ {
 				if res[t] != solo[t] || logs[t] != sololog[t] {
-					c.Report(fmt.Sprintf("c10/isolation:request-kind-%d", kind), int64(kind), "", c10Iso{Enc: fmt.Sprintf("request kind %d", kind), Sched: x.Choices(), Salt: c.Salt},
-						[]string{fmt.Sprintf("2 CPUs accepting a request of kind %d at the same time (0 NMI, 1 IM1, 2 IM2, 3 mode-0 RST, 4 mode-0 CALL, 5 mode-0 INC/DEC A, 6 mode-0 LD HL,nn), schedule %v: CPU %d ends differently from its solo run", kind, x.Choices(), t),
+					c.Report(fmt.Sprintf("c10/isolation:request-kind-%d", kv), int64(kv), "", c10Iso{Enc: fmt.Sprintf("request kind %d", kv), Sched: x.Choices(), Salt: c.Salt},
+						[]string{fmt.Sprintf("2 CPUs accepting a request of kind %d at the same time (0 NMI, 1 IM1, 2 IM2, 3 mode-0 RST, 4 mode-0 CALL, 5 mode-0 INC/DEC A, 6 mode-0 LD HL,nn; variant %d: 0 own request objects, 1 one request object handed to both CPUs, 2 CPU 1 is a by-value copy of CPU 0 made after CPU 0 served such a request), schedule %v: CPU %d ends differently from its solo run", kind, variant, x.Choices(), t),
 							fmt.Sprintf("solo:        %v %s", stateMap(&solo[t]), sololog[t]), fmt.Sprintf("interleaved: %v %s", stateMap(&res[t]), logs[t])})
 					return false
 				}
